@@ -40,12 +40,17 @@ SIM_KW = {"max_steps": 400_000, "wall_cap": 60.0}
 def cases(tier):
     # second family: deploy/schedule/transfer/execute pipelines (the shapes of the recovery checks) without a
     # recovering failure manager, where a failing job must end the whole run
-    return [{"mode": "pipeline"} for _ in range(500 if tier == "quick" else 30000)]
+    n = 500 if tier == "quick" else 30000
+    return [{"mode": "pipeline"} for _ in range(n)] + [{"mode": "pipeline", "direct": True} for _ in range(n // 2)]
 
 
 def run_pipeline(sim, params):
     t = sim.tape
     shape = S.gen_shape(t)
+    if shape["kind"] == "sg" and params.get("direct"):
+        # the scatter elements reach the execute step directly (no transfer step gated by the job port): after a failed
+        # schedule the remaining elements still arrive
+        shape = dict(shape, direct=True, m=1)
     jobs = sorted(S.jobs_of(shape))
     manager = ("dummy", "none")[t.draw(2, "manager")]
     faults = {}
